@@ -10,6 +10,7 @@
                                                 verify_rrset_with_dnskey             -> verify_rrset_with_dnskey
                                                 verify_rrsig_with_keys               -> verify_rrsig_with_keys
                                                 verify_default_rrset (+ select_ok)   -> default_rrset
+                                                verify_dnskey_rrset, no-record case  -> rrset_verdict
                                                 RrsetMap::new, verify_rrsets,
                                                 VerifiedRrset::update_rrset,
                                                 wildcard gate of verify_response     -> respond
@@ -296,6 +297,16 @@ Section WithSig.
     | _ => select_sigs lookup qname qtype O sigs kname ktype rs now false
     end.
 
+  (* verify_rrsets dispatch.  An RRset key of type DNSKEY (48) goes to verify_dnskey_rrset; the one
+     case of it these responses reach is RRSIGs covering DNSKEY with no DNSKEY record under that
+     owner: no key, hence no DS lookup and no RRSIG that can verify, and (since fix fed49c5: the
+     "all keys secure" shortcut needs at least one key) Err(Bogus, DnskeyNotFound).  DNSKEY RRsets
+     with records inside the answer section of another query are outside this model. *)
+  Definition rrset_verdict (lookup : lookup_t) (qname : name) (qtype : N) (kname : name) (ktype : N)
+             (rs : list rr) (sigs : list sigrr) (now : N) : gres :=
+    if (ktype =? 48) && match rs with [] => true | _ :: _ => false end then GErr Bogus true
+    else default_rrset lookup qname qtype kname ktype rs sigs now.
+
   (* ---------------------------------------------------------------- *)
   (* Validation cache                                                  *)
   (* ---------------------------------------------------------------- *)
@@ -359,7 +370,7 @@ Section WithSig.
     match cache_get c key inst with
     | Some v => (v, c)
     | None =>
-        let v := default_rrset lookup qname qtype kname ktype rs sigs now in
+        let v := rrset_verdict lookup qname qtype kname ktype rs sigs now in
         match v with
         | GErr _ false => (v, c)
         | _ => (v, cache_insert c key rs inst v)
@@ -457,19 +468,11 @@ Section WithSig.
     | _ => false
     end.
 
-  Inductive outcome := OPanic | ONsecError | OAnswer (l : list (proof * N)).
-
-  (* an RRset key of type DNSKEY (48) goes to verify_dnskey_rrset; with RRSIGs covering DNSKEY but
-     no DNSKEY record under that owner in the section, `dnskey_proofs` is empty, "all keys are
-     secure" holds vacuously and `dnskey_proofs.pop().unwrap()` panics.  (DNSKEY RRsets with
-     records in the answer section of another query are outside this model.) *)
-  Definition dnskey_panic (l : list ans) (ks : list (name * N)) : bool :=
-    existsb (fun k => (snd k =? 48) && match group_rrs k l with [] => true | _ => false end) ks.
+  Inductive outcome := ONsecError | OAnswer (l : list (proof * N)).
 
   Definition respond (lookup : lookup_t) (c : cache) (inst : N) (qname : name) (qtype : N)
              (l : list ans) (now64 : N) : outcome * cache :=
     let now := now64 mod two32 in            (* `current_time() as u32` *)
-    if dnskey_panic l (keys_of l []) then (OPanic, c) else
     let '(vs, c') := run_groups lookup c inst qname qtype l (keys_of l []) now in
     if existsb (wildcard_group l) vs then (ONsecError, c')
     else (OAnswer (annotate vs [] l), c').
